@@ -26,6 +26,14 @@ def scan_prop(pid, setn, extra_lib):
 
 
 PROPS = {
+    'C07': {
+        'lib': LIB + ['Check/Scan', 'Check/C07'],
+        'syn': ['Props/C07_set1', 'Props/C07_set2'], 'needs_syn': ['Syn/Set1', 'Syn/Set2', 'Check/C07'],
+        'ext': ['Props/C07_set1_ext', 'Props/C07_set2_ext'], 'needs_ext': ['ExtI/Scan', 'Check/C07'],
+        'corr': ['Corr/Set1', 'Corr/Set2'], 'needs_corr': ['Syn/Set1', 'Syn/Set2', 'ExtI/Scan'],
+        'cex_ext': ['Cex/C07_set1_ext', 'Cex/C07_set2_ext'], 'cex_syn': ['Cex/C07_set1_syn', 'Cex/C07_set2_syn'],
+        'replay_kind': 'bytesN',
+    },
     'C01': scan_prop('C01', 2, ['Check/C01']),
     'C02': scan_prop('C02', 1, ['Check/C02']),
     'C06': dict(ps2_prop('C06', ['Check/C06']), replay_kind='bits'),
